@@ -820,12 +820,14 @@ package raft
 // or discards the snapshot files WITHOUT the lock. That is race-free only because every other
 // goroutine that gets the lock afterwards looks at the state first and leaves these fields alone:
 // an access to one of them is an obligation `<fn>.not-after-stop` (r.state != Shutdown is known).
-// Raft.followers (the map Stop's tail ranges over) is in the list too: every access elsewhere -
-// a map insert or delete looks like a read of the field - needs the same knowledge.
+// Raft.followers (the map Stop's tail ranges over) is only READ by Stop (`stopread`): elsewhere a
+// write of the field or a mutation of the map (insert, delete) needs the same knowledge, a read
+// does not conflict and needs nothing.
 // Stop() itself is checked against this list: an unlocked access in Stop() is allowed only to one of
 // these fields and only after the call has published Shutdown (`Raft.Stop.tail-after-shutdown`);
 // anything else it touches without the lock fails `Raft.Stop.guarded-access`.
-//@ stopowned Raft.snapshot follower.snapshot Raft.followers
+//@ stopowned Raft.snapshot follower.snapshot
+//@ stopread Raft.followers
 // Exempt: the lifecycle functions themselves, and the background loops that Stop() waits for
 // (sync.WaitGroup) before it touches the fields.
 //@ stopexempt Raft.Stop Raft.start Raft.Restart Raft.Start NewRaft Raft.snapshotLoop Raft.applyLoop Raft.commitLoop Raft.readOnlyLoop Raft.electionLoop Raft.heartbeatLoop Raft.electionTicker
